@@ -9,6 +9,8 @@ pub mod stubs;
 pub mod util;
 
 #[cfg(kani)]
+pub mod c08;
+#[cfg(kani)]
 pub mod c18;
 
 #[cfg(all(kani, verif_native))]
